@@ -239,6 +239,15 @@ func genC10(t *core.Tape, tier string) *Scenario {
 			}
 		}
 	}
+	if p.Raw == nil && (p.Kind == KClient || p.Kind == KBidi) && p.Deadline > 4*time.Microsecond && p.Deadline < time.Minute && t.Bool(1, 3, "idle.before.first.send") {
+		// the caller creates the stream and does something else before it first
+		// sends: what goes on the wire then must fit the time remaining then
+		p.PreSendSleep = p.Deadline / time.Duration(2+t.Choose(6, "idle.div"))
+		us := int(p.PreSendSleep / time.Microsecond)
+		p.PreSendSleep = time.Duration(us) * time.Microsecond
+		p.CProg = append([]COp{{Op: "sleep", Arg: us}}, p.CProg...)
+		sc.Notes["idle_before_first_send"]++
+	}
 	genYield(t, p)
 	sc.Calls = []*CallPlan{p}
 	if p.Raw == nil && p.Kind == KUnary && p.Deadline > 0 && t.Bool(1, 2, "resend.request") {
@@ -325,6 +334,16 @@ func checkC10(w *World, st core.Status, r *RunResult) []Violation {
 		// client deadline -> header -> handler deadline
 		hv := ex.ReqHeader[name]
 		d := p.Deadline
+		if rs := o.Call.RequestStart(); d > 0 && !rs.IsZero() {
+			// what remained at the instant the library started the request (the
+			// caller may have been idle since it created the stream, and every
+			// scheduling step costs a microsecond of fake time)
+			d -= rs.Sub(o.StartTime)
+			if d <= 0 {
+				r.Probes["deadline_passed_before_request"]++
+				continue
+			}
+		}
 		if d == 0 {
 			r.Probes["no_deadline_checked"]++
 			if len(hv) != 0 {
